@@ -236,6 +236,8 @@ func run(e *core.Env) {
 	var captured [][]byte
 	var foreignChains [][]layer // chains of other announcements, for splicing
 	var foreignCtx [][]byte     // ... and the signing context each of them belongs to
+	var foreignRaw [][]byte     // ... and the frame that carried it, as captured
+	var foreignOrigin []netip.Addr
 	pump := func(d time.Duration) {
 		end := time.Now().Add(d)
 		for guard := 0; guard < 40000; guard++ {
@@ -276,6 +278,8 @@ func run(e *core.Env) {
 			if ls, ok := parseChain(f.AppendixData()); ok && len(ls) > 0 {
 				foreignChains = append(foreignChains, ls)
 				foreignCtx = append(foreignCtx, signingContext(f))
+				foreignRaw = append(foreignRaw, c)
+				foreignOrigin = append(foreignOrigin, f.SrcIP())
 			}
 			f.ReturnToPool()
 		}
@@ -297,6 +301,43 @@ func run(e *core.Env) {
 		}
 		e.Case(0x08, uint64(depth), uint64(len(what)), uint64(len(data)))
 		e.Fault("tamper_" + strings.SplitN(what, " ", 2)[0])
+	}
+
+	// rejectBurst hands V a manipulated announcement and, in the same instant, a genuine one
+	// (the one its foreign records were taken from): two of V's workers handle them side by
+	// side, the processor changes hands at two drawn lock operations. What V holds for the
+	// manipulated announcement's origin must not change; the genuine one is judged elsewhere.
+	rejectBurst := func(what string, from *simnet.Link, forged, genuine []byte, origin netip.Addr, depth int) {
+		if forged == nil {
+			return
+		}
+		only := func() string {
+			var out []m.RoutingTableEntry
+			for _, en := range V.Router.Table().VerifEntries() {
+				if en.DstIP == origin {
+					out = append(out, en)
+				}
+			}
+			return tableKeyOf(out)
+		}
+		before := only()
+		p1 := &simnet.Packet{Conn: from.ConnID(), Dir: 9, Seq: 1, From: from, To: from.Other, Data: forged, Tag: "adv", NoDelay: true}
+		p2 := &simnet.Packet{Conn: from.ConnID(), Dir: 9, Seq: 2, From: from, To: from.Other, Data: append([]byte(nil), genuine...), Tag: "adv", NoDelay: true}
+		if tp.Chance(1, 2) {
+			p1, p2 = p2, p1
+		}
+		burstOps, switchAt = 0, [2]int{1 + tp.Intn(60), 1 + tp.Intn(120)}
+		ms.Net.DeliverRaw(p1)
+		ms.Net.DeliverRaw(p2)
+		simnet.Wait()
+		switchAt = [2]int{}
+		ms.CheckPanics("worker-panic")
+		if only() != before {
+			e.Fail("manipulated-announcement-changed-routes/"+what, "announcement with %d hop records, manipulation %q: what V holds for its origin changed", depth, what)
+		}
+		e.Case(0x08, uint64(depth), uint64(len(what)), uint64(len(forged)))
+		e.Fault("tamper_" + strings.SplitN(what, " ", 2)[0])
+		e.Probe("manipulated_and_genuine_announcement_handled_side_by_side")
 	}
 
 	order := tp.Perm(len(captured))
@@ -488,6 +529,10 @@ func run(e *core.Env) {
 					cp := append(append([]layer(nil), ls[:j+1]...), other...)
 					if j == 0 {
 						cp = append([]layer{ls[0]}, other...)
+					}
+					if foreignOrigin[oi] != origin && tp.Chance(1, 2) {
+						rejectBurst("splice from another announcement, side by side with that announcement", lPV, withAppendix(parser, orig, encodeChain(cp, ctx, pKey)), foreignRaw[oi], origin, depth)
+						continue
 					}
 					reject("splice from another announcement", lPV, withAppendix(parser, orig, encodeChain(cp, ctx, pKey)), depth)
 				case 6: // swap two adjacent levels
